@@ -58,21 +58,34 @@ int32 = DType("int32", "i", 32)
 int64 = DType("int64", "i", 64)
 bool_ = DType("bool", "b", 1)
 DTYPES = {d.name: d for d in (float32, float64, bfloat16, int8, int16, int32, int64, bool_)}
+X64 = False
+
+
+def set_x64(flag):
+  """Models jax_enable_x64: default float dtype float64, float64 requests honoured (otherwise truncated to float32)."""
+  global X64
+  X64 = bool(flag)
+
+
+def default_float():
+  return float64 if X64 else float32
 
 
 def as_dtype(d):
   if d is None:
     return None
   if isinstance(d, DType):
-    return d
+    # without jax_enable_x64 a float64 request is truncated to float32
+    return float32 if (d.name == "float64" and not X64) else d
   if d is bool:
     return bool_
   if d is int or getattr(d, "_real", None) is int:
     return int32
   if d is float or getattr(d, "_real", None) is float:
-    return float32
+    return default_float()
   if isinstance(d, str):
-    return DTYPES[d]
+    d = DTYPES[d]
+    return float32 if (d.name == "float64" and not X64) else d
   nm = getattr(d, "__name__", None) or getattr(d, "name", None)
   if nm in DTYPES:
     return DTYPES[nm]
@@ -90,7 +103,7 @@ def scalar_dtype(v):
     return int32
   if hasattr(v, "_pyvc_dtype"):
     return v._pyvc_dtype
-  return float32
+  return default_float()
 
 
 def result_dtype(*ds):
@@ -604,7 +617,7 @@ def asarray(x, dtype=None):
     return x.astype(dtype) if dtype is not None else x
   if isinstance(x, (list, tuple)):
     if not x:
-      return Tensor((0,), dtype or float32, lambda idx: 0.0)
+      return Tensor((0,), dtype or default_float(), lambda idx: 0.0)
     elems = [asarray(e) for e in x]
     return stack(elems, 0) if dtype is None else stack(elems, 0).astype(dtype)
   if hasattr(x, "_pyvc_symlen"):
@@ -638,17 +651,17 @@ def full(shape, v, dtype=None):
 
 
 def zeros(shape, dtype=None):
-  dt = as_dtype(dtype) or float32
+  dt = as_dtype(dtype) or default_float()
   return full(shape, 0.0 if dt.kind == "f" else (False if dt.kind == "b" else 0), dt)
 
 
 def ones(shape, dtype=None):
-  dt = as_dtype(dtype) or float32
+  dt = as_dtype(dtype) or default_float()
   return full(shape, 1.0 if dt.kind == "f" else (True if dt.kind == "b" else 1), dt)
 
 
 def eye(n, m=None, dtype=None, k=0):
-  dt = as_dtype(dtype) or float32
+  dt = as_dtype(dtype) or default_float()
   m = n if m is None else m
   one = OPS.cast(1, int32, dt)
   zero = OPS.cast(0, int32, dt)
@@ -1765,17 +1778,12 @@ class Contraction:
     key = _key(idx)
     if key not in self.seen:
       self.seen.add(key)
+      # "a non-zero sum has a non-zero term": Skolemised witness form of (forall k. term(k) = 0) => sum = 0
       ks = tuple(SInt(c.fresh_int("kc")) for _ in self.contracted)
-      s = z3.Solver()
-      s.set("timeout", _ctx.FEAS_TIMEOUT_MS)
-      for p in c.pc:
-        s.add(p)
-      for k, d in zip(ks, self.contracted):
-        s.add(sym.sand(k >= 0, k < d).z)
+      inr = sym.sand(*[sym.sand(k >= 0, k < d) for k, d in zip(ks, self.contracted)])
       tv = self.term_fn(idx, ks)
       tz = sym._as_real_z(tv)
-      if s.check(tz != 0) == z3.unsat:
-        c.fact(term == 0, "contraction: a sum of zero terms is zero")
+      c.fact(z3.Or(term == 0, z3.And(inr.z, tz != 0)), "contraction: a non-zero sum has a non-zero term (witness index)")
     return SReal(term)
 
 
